@@ -300,14 +300,16 @@ impl<T> RcInner<T> {
 impl<T: RcObject> RcInner<T> {
     #[inline]
     pub(crate) unsafe fn decrement_strong(ptr: *mut Self, count: u32, guard: Option<&Guard>) {
-        #[cfg(feature = "circ_verif")]
-        crate::verif::yp(crate::verif::site::DECS_EPOCH);
-        let epoch = global_epoch();
         // Should mark the current epoch on the strong count with CAS.
         let hit_zero = loop {
             #[cfg(feature = "circ_verif")]
             crate::verif::yp(crate::verif::site::DECS_LOAD);
             let curr = State::from_raw((*ptr).state.load(Ordering::SeqCst));
+            // Read the epoch after the count, so that a stamp written by a delayed thread
+            // never replaces a more recent one.
+            #[cfg(feature = "circ_verif")]
+            crate::verif::yp(crate::verif::site::DECS_EPOCH);
+            let epoch = global_epoch();
             debug_assert!(curr.strong() >= count);
             #[cfg(feature = "circ_verif")]
             crate::verif::yp(crate::verif::site::DECS_CAS);
